@@ -704,6 +704,54 @@ def rule_median(ctx):
     return res.finish(1)
 
 
+def _carried_copy_twice(fn):
+    """In a `for` loop: a variable declared outside the loop is overwritten, unconditionally and at the top level of the
+    body, with (a component of) the current element, is not read earlier in the body, and is then combined by + or - with
+    that same component.  Returns (binary node, variable name, element name, assignment) or None."""
+    for it, pat, body, node in for_loops(fn["body"]):
+        body = strip(body)
+        if body.get("k") != "Block":
+            continue
+        item = {b["local"]: b["name"] for b in pat_bindings(pat)}
+        inner = set(b["local"] for y in walk(body) if y.get("k") in ("LetStmt", "Let") for b in pat_bindings(y["pat"]))
+        inner |= set(b["local"] for y in walk(body) if y.get("k") == "Match" for a in y["arms"] for b in pat_bindings(a["pat"]))
+        stmts = list(body["stmts"]) + ([body["e"]] if body.get("e") is not None else [])
+        alias = dict((k_, k_) for k_ in item)          # local -> item local it copies
+        copies = {}                                     # outer local -> (item local, statement index, node)
+        for i, st in enumerate(stmts):
+            for y in ([strip(st)] + list(strip(st).get("stmts", []) if strip(st).get("k") == "Block" else [])):
+                y = strip(y)
+                if y.get("k") == "LetStmt" and y.get("init") is not None:
+                    p_, e_ = y["pat"], peel_refs(y["init"])
+                    if p_.get("k") == "Tuple" and e_.get("k") == "Tup" and len(p_["pats"]) == len(e_["es"]):
+                        for q, x in zip(p_["pats"], e_["es"]):
+                            x = peel_refs(x)
+                            if q.get("k") == "Bind" and x.get("k") == "Path" and x.get("local") in alias:
+                                alias[q["local"]] = alias[x["local"]]
+                    elif p_.get("k") == "Bind" and e_.get("k") == "Path" and e_.get("local") in alias:
+                        alias[p_["local"]] = alias[e_["local"]]
+                if y.get("k") == "Assign":
+                    l_, r_ = peel_refs(y["l"]), peel_refs(y["r"])
+                    if l_.get("k") == "Path" and "local" in l_ and l_["local"] not in inner and l_["local"] not in item:
+                        if r_.get("k") == "Path" and r_.get("local") in alias and l_["local"] not in copies:
+                            copies[l_["local"]] = (alias[r_["local"]], i, y, l_.get("name"))
+        for v, (cur, i, asg, vname) in copies.items():
+            def reads(st):
+                return [z for z in walk(st) if z.get("k") == "Path" and z.get("local") == v]
+            before = any(reads(st) for st in stmts[:i])
+            # the assignment statement itself: the right-hand sides come first
+            if before:
+                continue
+            for st in stmts[i + 1:]:
+                for y in walk(st):
+                    if y.get("k") == "Binary" and y["op"] in ("+", "-"):
+                        a, b = peel_refs(y["l"]), peel_refs(y["r"])
+                        la, lb = a.get("local") if a.get("k") == "Path" else None, b.get("local") if b.get("k") == "Path" else None
+                        if (la == v and lb is not None and alias.get(lb) == cur) or (lb == v and la is not None and alias.get(la) == cur):
+                            return y, vname, item.get(cur, "?"), asg
+    return None
+
+
 def rule_twice(ctx):
     """`(x1 - x0) * (y0 + y1) / 2`: a sum or difference in a metric combines two *different* quantities.  The same operand on
     both sides (`y1 + y1`, `x - x`) is a slip of the pen that turns a trapezoid into a rectangle or a difference into zero."""
@@ -730,10 +778,14 @@ def rule_twice(ctx):
             if r.e(a) == r.e(b) and any(z.get("k") == "Path" and "local" in z for z in walk(a)):
                 bad = y
                 break
-        if bad is None:
+        carried = _carried_copy_twice(fn) if bad is None else None
+        if bad is None and carried is None:
             res.ok()
-        else:
+        elif bad is not None:
             res.violate("%s : operand-used-twice" % key, "`%s` has the same operand on both sides" % r.e(bad)[:60], fn_loc(fn, bad.get("ln")))
+        else:
+            y, v, cur, asg = carried
+            res.violate("%s : operand-used-twice:carried-copy" % key, "`%s` combines `%s` with `%s`, but `%s` was overwritten with `%s` earlier in the same iteration (line %s) and is not read before that: both operands are the current element, the value carried over from the previous iteration is never used" % (r.e(y)[:60], v, cur, v, cur, asg.get("ln")), fn_loc(fn, y.get("ln")))
     if n < 8:
         res.missing_anchor("metric functions with sums / differences (found %d)" % n)
     return res.finish(8)
@@ -1184,6 +1236,28 @@ def rule_formula(ctx):
             verdict(fn, "", fm, got, want, " (p: receiver, t: argument)")
         except (Unsupported, TypeError, KeyError, AttributeError) as e_:
             res.undecided("%s : not-read" % key, "the expression of `%s` is outside the vocabulary of the formula reader: %s (fail closed)" % (d["name"], e_), fn_loc(fn))
+    # -- multi-target regression scores that do not delegate to the single-target ones: read column-wise
+    elem2_p = lambda fm: V("elem2", fm.atom("p"))      # noqa: E731
+    elem2_t = lambda fm: V("elem2", fm.atom("t"))      # noqa: E731
+    for fn in F.all_fns():
+        d = fn["d"]
+        if d["krate"] != "linfa" or not (d.get("trait") or "").endswith("MultiTargetRegression") or d.get("pk") != "trait":
+            continue
+        c = fn["crate"]
+        if any(y.get("k") == "MethodCall" and (c.dfn(y.get("def")) or {}).get("trait", "").endswith("SingleTargetRegression") for y in walk(fn["body"])):
+            continue            # delegation: R-C05-delegate
+        if d["name"] == "median_absolute_error":
+            continue
+        key = fn_key(fn)
+        res.instance(key + ":column-wise")
+        try:
+            fm, got = read(fn, [elem2_p, elem2_t])
+            want = _formula_expected(fm, d["name"])
+            if want is None or got.kind != "scal" or isinstance(got.r, tuple):
+                raise Unsupported("not a per-column score")
+            verdict(fn, "column-wise", fm, got, want, " of column j taken over the samples of column j (S: sum over the samples of one column, SS: over the whole matrix)")
+        except (Unsupported, TypeError, KeyError, AttributeError) as e_:
+            res.undecided("%s : not-read" % key, "the multi-target `%s` neither delegates to the single-target score nor is its expression inside the vocabulary of the formula reader: %s (fail closed)" % (d["name"], e_), fn_loc(fn))
     # -- F-beta, macro averages
     for fn in fns_named(F, "f_score", adt="ConfusionMatrix"):
         n += 1
@@ -1250,4 +1324,4 @@ def rules(tier):
     from . import bitorder
     from . import intnarrow
     return [intnarrow.make_rule("R-C05-narrow", lambda f: f["d"]["krate"] == "linfa" and any(x in fn_file(f) for x in ("metrics_", "correlation")), "the metrics of the linfa crate"),
-            rule_formula, rule_packed, rule_f1, rule_union, rule_centred, rule_clip, rule_sorted, bitorder.make_rule("R-C05-bitorder", {"linfa"}, 1, "the linfa crate (probabilities `Pr`, scores of the metrics)"), rule_delegate, rule_degree, rule_orient, rule_roles, rule_count, rule_median, rule_twice, rule_symmetric, rule_reset, c02.rule_counted]
+            rule_formula, rule_packed, rule_f1, rule_union, rule_centred, rule_clip, rule_sorted, bitorder.make_rule("R-C05-bitorder", {"linfa"}, 1, "the linfa crate (probabilities `Pr`, scores of the metrics)"), rule_delegate, rule_degree, rule_orient, rule_roles, rule_count, rule_median, rule_twice, rule_symmetric, rule_reset, c02.rule_counted, c02.rule_search]
